@@ -115,7 +115,7 @@ func renderSentence(rng *rand.Rand, toks []string, triviaP float64) string {
 	for _, t := range toks {
 		// trivia before the token
 		if rng.Float64() < triviaP && prev != "METADATA" {
-			choices := []string{" ", "\t", "\n", "  ", " \n "}
+			choices := []string{" ", "\t", "\n", "  ", " \n ", "\r\n", "\f", "\v", "\u00a0", "\u3000", "\u2028 ", "\u2003"}
 			if !inMeta && prev != "UNDERSCORE" {
 				choices = append(choices, ";c\n", " ; a [b] {c}\n", ";\n", ";a\n;b\n", "; one\n ; two\n;three\n", ";1\n;2\n;3\n;4\n;5\n", "\n;x\n\n;y\n")
 			}
@@ -197,7 +197,7 @@ func init() {
 		Rule: "sentence: every sentence TLC derived from the productions of chords.y (<= L tokens), rendered with seeded trivia/spellings; prefix: every proper prefix of a rendering of each sentence; " +
 			"mutation: seeded token deletions / duplications / swaps / replacements; strings: ALL strings over 20 representative runes up to length n (quick n=3, thorough n=4) plus seeded longer ones; " +
 			"each through the real `crd text parse` under a watchdog. distinct = distinct texts",
-		Key: func(r Rec) string { b, _ := json.Marshal(r["s"]); return string(b) },
+		Key: func(r Rec) string { b, _ := json.Marshal([]any{r["s"], r["base"], r["reps"], r["suffix"]}); return string(b) },
 		Gen: func(c *Ctx) []Case {
 			rng := rand.New(rand.NewSource(c.Seed))
 			sents := loadSentences(c.Aux)
@@ -268,9 +268,31 @@ func init() {
 				cases = append(cases, Case{"cmd": "strings", "text": sb.String()})
 			}
 			cases = append(cases, Case{"cmd": "strings", "text": ""})
+			// long texts (beyond any buffer size): k repetitions of a sentence, then a short suffix that decides acceptance
+			if len(sents) > 0 {
+				for i, reps := range []int{3000, 9000, 30000} {
+					base := renderSentence(rng, sents[(i*37)%len(sents)], 0)
+					for _, suffix := range []string{"", "C[", "D[1]{a=b}", "?", "R[1] 2[", "\u3000G[2]"} {
+						cases = append(cases, Case{"cmd": "long", "base": base, "reps": reps, "suffix": suffix})
+					}
+				}
+			}
 			return cases
 		},
 		Exec: func(c *Ctx, k Case) []Rec {
+			if cs(k, "cmd") == "long" {
+				base, reps, suffix := cs(k, "base"), ci(k, "reps"), cs(k, "suffix")
+				text := strings.Repeat(base+" ", reps) + suffix
+				r := c.crdEnv([]string{"text", "parse"}, []byte(text), nil, 120e9)
+				n := 0
+				var t yTree
+				acc := r.Exit == 0 && len(r.Stdout) > 0 && yaml.Unmarshal(r.Stdout, &t) == nil
+				if acc {
+					n = len(t.List)
+				}
+				return []Rec{{"kind": "long", "sub": "long", "base": chars(base), "reps": reps, "suffix": chars(suffix), "bytes": len(text), "accepted": acc,
+					"nitems": n, "terminated": !r.TimedOut, "stdoutLen": len(r.Stdout), "stderrLen": len(r.Stderr)}}
+			}
 			var claim []string
 			if cs(k, "cmd") == "sentence" {
 				claim = css(k, "claim")
